@@ -163,3 +163,31 @@ Definition failure_response_typed (admin_port accept_html : bool) (code : N) (st
 
 Definition ct_code (c : ctype) : N :=
   match c with CtHtml => 0 | CtPlain => 1 | CtAbsent => 2 | CtOther => 3 end.
+
+
+(* ------------------------------------------------------------------------------------------
+   Hand-built attributes: NAME= followed by a value that keymasterd concatenates itself from request text run
+   through the hand escaper html_escape (htmltemplate.HTMLEscapeString), with a QUOTING MODE.  attr_read is the raw
+   value an HTML5 tokenizer reads from the bytes that follow `NAME=` (attribute value states: double-quoted,
+   single-quoted, unquoted).  The hidden login-destination INPUT is hand_attr QDouble; an unquoted hand-built
+   attribute is NOT part of the code (hand_attr QUnquoted is the refuted variant: HTMLEscapeString leaves blanks,
+   `=` and backticks alone). *)
+Inductive quoting := QDouble | QSingle | QUnquoted.
+Definition hand_attr (q : quoting) (s : bs) : bs :=
+  match q with
+  | QDouble => 34 :: html_escape s ++ [34]
+  | QSingle => 39 :: html_escape s ++ [39]
+  | QUnquoted => html_escape s
+  end.
+Fixpoint until_squote (s : bs) : bs :=
+  match s with
+  | [] => []
+  | c :: r => if c =? 39 then [] else c :: until_squote r
+  end.
+Definition attr_read (tail : bs) : bs :=
+  match tail with
+  | [] => []
+  | c :: r => if c =? 34 then until_quote r else if c =? 39 then until_squote r else until_unq_end tail
+  end.
+Definition x_onx : bs := [120; 32; 111; 110; 120; 61; 49].
+
